@@ -275,6 +275,7 @@ def finish(M, rec, write=True):
             rec.gate(kd in rec.cover.get("element_kinds", set()), f"element kind {kd} never present")
         rec.gate(rec.counters.get("generated_network_rejected_by_validation", 0) == 0,
                  "validation rejected generated networks that satisfy the nine conditions (see C06)")
+    rec.extra["exhaustive_subspaces"] = [f"every valid (topology, role) assignment on <= {rec.extra.get('exhaustive_small_nmax')} labelled nodes incl. self-loops"]
     return rec.finish(
         ["steps_ok", "compilations_ok", "finite_checks"],
         ["net_signatures", "compile_modes"],
